@@ -1,3 +1,4 @@
+#include <string.h>
 #include "util.h"
 #include <rtosc/arg-val.h>
 #include <rtosc/arg-val-itr.h>
@@ -20,15 +21,20 @@ size_t rtosc_avmessage(char                  *buffer,
             rtosc_arg_val_itr_next(&itr2);
     }
 
+    if(!val_max) // no arguments: no zero-sized arrays (see rtosc_vmessage)
+        return rtosc_amessage(buffer, len, address, "", NULL);
+
     STACKALLOC(rtosc_arg_t, vals, val_max);
     STACKALLOC(char, argstr,val_max+1);
 
-    int i;
+    int i, nvals = 0;
     for(i = 0; i < val_max; ++i)
     {
         rtosc_arg_val_t av_buffer;
         const rtosc_arg_val_t* cur = rtosc_arg_val_itr_get(&itr, &av_buffer);
-        vals[i] = cur->val;
+        // rtosc_amessage() takes values only for the types that carry a payload
+        if(cur->type && strchr("isbfhtdSrmc", cur->type))
+            vals[nvals++] = cur->val;
         argstr[i] = cur->type;
         rtosc_arg_val_itr_next(&itr);
     }
